@@ -12,7 +12,13 @@
 EXTENDS Gateway, Json
 VARIABLE st
 
-MC_Sets == [s1 |-> [keys |-> <<1, 2>>, weights |-> <<1, 1>>, threshold |-> 2, nonce |-> 0]]
+\* a gateway with some history behind it: five signer sets installed (more than retention + 3), one approved and
+\* one executed message - "changes no gateway state" is about all of it
+MC_Sets == [s1 |-> [keys |-> <<1, 2>>, weights |-> <<1, 1>>, threshold |-> 2, nonce |-> 0],
+            s2 |-> [keys |-> <<1, 2>>, weights |-> <<1, 1>>, threshold |-> 2, nonce |-> 1],
+            s3 |-> [keys |-> <<2, 3>>, weights |-> <<1, 1>>, threshold |-> 1, nonce |-> 2],
+            s4 |-> [keys |-> <<1, 3>>, weights |-> <<2, 1>>, threshold |-> 2, nonce |-> 3],
+            s5 |-> [keys |-> <<4>>,    weights |-> <<1>>,    threshold |-> 1, nonce |-> 4]]
 MC_Keys == [k1 |-> [chain |-> "c", id |-> "1"]]
 MC_Msgs == [m1 |-> [key |-> "k1", src |-> "sA", dest |-> "app1", ph |-> "P1"]]
 
@@ -39,7 +45,8 @@ Acts(s) ==
       chain |-> c, addr |-> d, payload |-> p] :
         x \in Senders, c \in Chains, d \in Addrs, p \in DOMAIN Payloads}
 
-InitState == [Install(Blank("owner0", "op0", 0), "s1") EXCEPT !.deployed = TRUE]
+InitState == [Install(Install(Install(Install(Install(Blank("owner0", "op0", 0), "s1"), "s2"), "s3"), "s4"), "s5")
+                 EXCEPT !.deployed = TRUE]
 Init == st = InitState
 Next == \E a \in Acts(st) : st' = Apply(st, a).post
 
